@@ -32,6 +32,10 @@ def run(ctx, rep):
     want = ["WrongEndianness", "WrongFormat", "WrongVersion", "InvalidHeader", "InvalidClasses", "InvalidMembers", "UnexpectedStringBytes"]
     rep.check("C11.2", "C11.2/error-kinds", all(w in names for w in want), loc=F.short_file(a["sp"]) if a else "",
               found="CacheErrorKind variants: %s" % names, expected="documented kinds present: %s" % want, nontrivial=False)
+    # "rejected with the corresponding error kind": what a caller compares (`err.kind() == CacheErrorKind::X { .. }`) is the
+    # derived, field-by-field equality - a kind that compared equal to a different payload would make that test say nothing
+    import api_rules as AR
+    AR.check_structural_eq(fx, rep, "C11.2", ["cache::CacheErrorKind"])
     # CacheError::kind() returns the stored kind; From<CacheErrorKind> stores it
     for nm, cands in (("kind", A.method(fx, "cache::CacheError", "kind")),):
         p = A.one(rep, "C11.2", "CacheError::kind", cands)
